@@ -17,6 +17,7 @@ class FnReport:
         self.obligations = []
         self.path_info = []
         self.path_pcs = []
+        self.path_results = []
 
 
 def verify_function(prog, fv, setup, goals, contracts=None, models=None, loops=None, hooks=None,
@@ -82,6 +83,7 @@ def verify_function(prog, fv, setup, goals, contracts=None, models=None, loops=N
             on_path(pid, ctx, oc, obs)
         rep.path_info.append((kind, list(ctx.trace)))
         rep.path_pcs.append((kind, list(ctx.pc)))
+        rep.path_results.append(oc[1] if kind == 'ret' else None)
         rep.obligations.extend(obs)
     return rep
 
@@ -105,3 +107,58 @@ def witness_cover(rep, witness, timeout_ms=3000):
         if s.check() == z3.sat:
             return pid
     return None
+
+
+def _flat(v):
+    if isinstance(v, (tuple, list)):
+        out = []
+        for x in v:
+            out += _flat(x)
+        return out
+    return [v]
+
+
+def crosscheck(rep, inputs, cpython_result, tol=1e-9, timeout_ms=4000):
+    """Engine against CPython on one concrete input: with the input constants substituted, exactly the returning path(s)
+    whose condition is satisfiable are the ones CPython can have taken; on each of them the symbolic result must equal the
+    value the real function returned under CPython (scalars compared with an absolute+relative tolerance `tol`, since
+    CPython computes in floats and the engine in reals).  Returns ('match' | 'mismatch' | 'no-path' | 'unknown', detail)."""
+    from fractions import Fraction
+    subs = [(k, v if z3.is_expr(v) else z3.RealVal(str(Fraction(v)))) for k, v in inputs]
+    want = _flat(cpython_result)
+    seen = False
+    for (kind, pc), res in zip(rep.path_pcs, rep.path_results):
+        if kind != 'ret':
+            continue
+        s = z3.Solver()
+        s.set('timeout', timeout_ms)
+        for h in pc:
+            s.add(z3.substitute(h, *subs))
+        r = s.check()
+        if r == z3.unsat:
+            continue
+        if r != z3.sat:
+            return 'unknown', 'path condition undecided under substitution'
+        seen = True
+        got = _flat(res)
+        if len(got) != len(want):
+            return 'mismatch', f"result shape {len(got)} vs {len(want)}"
+        diffs = []
+        for g, w in zip(got, want):
+            if w is None or isinstance(w, str):
+                continue
+            gz = z3.substitute(to_z3(g), *subs) if z3.is_expr(g) else to_z3(g)
+            if z3.is_bool(gz):
+                diffs.append(gz != z3.BoolVal(bool(w)))
+                continue
+            wv = z3.RealVal(str(Fraction(float(w))))
+            t = z3.RealVal(str(Fraction(tol * (1 + abs(float(w))))))
+            gz = z3.ToReal(gz) if z3.is_int(gz) else gz
+            diffs.append(z3.Or(gz - wv > t, wv - gz > t))
+        s.add(z3.Or(*diffs) if diffs else z3.BoolVal(False))
+        r2 = s.check()
+        if r2 == z3.sat:
+            return 'mismatch', f"engine result differs from CPython {want} on a feasible path: {s.model()}"[:400]
+        if r2 != z3.unsat:
+            return 'unknown', 'comparison undecided'
+    return ('match', '') if seen else ('no-path', 'no returning path is feasible for this input')
